@@ -36,7 +36,7 @@ SHRINK_BUDGET = 40.0
 MAX_ROUNDS = 1
 
 HEAVY = ["path", "path_label", "ring_label", "ladder", "comb", "polyethylene", "peptide", "caterpillar", "diatomics", "isolated", "star", "tree"]
-LIGHT = HEAVY + ["complete", "single"]
+LIGHT = HEAVY + ["complete", "single", "core_leaves"]
 
 
 def budget(tier):
@@ -153,6 +153,10 @@ def construct(case):
         n = min(d, 60)
         zs = [6] * n
         edges = [(i, j) for i in range(n) for j in range(i + 1, n)]
+    elif fam == "core_leaves":
+        k = max(3, min(d, 40))
+        zs = [79] * k + [17] * k
+        edges = [(i, j) for i in range(k) for j in range(i + 1, k)] + [(i, k + i) for i in range(k)]
     elif fam == "tree":
         n = 2 * d if heavy_ else d
         zs = [6] * n
